@@ -399,7 +399,10 @@ func checkC08(ctx *Ctx) *Result {
 		// ... and the deny tables behind "forbidden/prohibited name"
 		denyTables(ctx, r, "R8.4")
 		// ... and "malformed pattern": the guards every accepted pattern has passed
-		r.share(checkC13(ctx), map[string]string{"R13.4": "every accepting path of ParsePattern has passed each documented guard (an invalid pattern makes Reconfigure fail)"}, nil)
+		r.share(checkC13(ctx), map[string]string{
+			"R13.4": "every accepting path of ParsePattern has passed each documented guard (an invalid pattern makes Reconfigure fail)",
+			"R13.1": "documented limits are the constants in use; the lexers' loops are bounded by them",
+		}, nil)
 	}
 	return r
 }
@@ -727,7 +730,11 @@ func checkC09(ctx *Ctx) *Result {
 		"R7.4": "no interface/dynamic call and no call into module code while the lock is held (a wrapped handler that calls SetDebug or Reconfigure would deadlock)",
 	}, nil)
 	// where `*` is listed debug mode must not consult the masked discrete state either
-	r.share(checkC06(ctx), map[string]string{"R6.7": "where `*` is listed the request path — in either debug mode — does not consult the masked discrete state (allowedMethods under allowAnyMethod; allowedReqHdrs/acah under asteriskReqHdrs)"}, nil)
+	maskedStateRule(ctx, r, "R6.7")
+	// "full allowed-header list": what the debug-only value holds
+	r.share(checkC04(ctx), map[string]string{"R4.7": "publication on error-free exits of the RequestHeaders validator: the debug-only Allow-Headers value is the sorted, de-duplicated set joined with commas"}, func(o Obligation) bool {
+		return strings.Contains(o.Construct, "validateRequestHeaders")
+	})
 	return r
 }
 
